@@ -1,6 +1,14 @@
 #!/usr/bin/env python3
 """regenerates /verif/MANIFEST.json from the table below (one entry per claimed property)"""
-import json, os
+import json
+import re as _re
+
+
+def _fixes():
+    import os
+    p = os.path.join(os.path.dirname(os.path.dirname(os.path.abspath(__file__))), 'known_findings.txt')
+    return [m.group(1) for m in (_re.match(r'fixed: property=\S+ ([0-9a-f]{7,})', ln) for ln in open(p)) if m]
+, os
 ROOT = os.path.dirname(os.path.dirname(os.path.abspath(__file__)))
 
 TRUST = ("Trusted: CPython 3.12, z3 5.1, CrossHair 0.0.110's models of int/list/dict, the stubs listed in the evidence "
@@ -35,7 +43,9 @@ m = {
     ],
     "checks": [],
     "not_applicable": [{"property_id": p, "reason": NA[p]} for p in props if p not in CHECKS],
-    "notes": "All checks: ./check <ID> --tier quick|thorough. Exit 0 nothing found, 1 VIOLATION, 2 harness error. known findings: known_findings.txt",
+    "notes": "All checks: ./check <ID> --tier quick|thorough. Exit 0 nothing found, 1 VIOLATION, 2 harness error. known findings: known_findings.txt. "
+             "Unguarded fix: commits in /repo (one per repaired defect, listed as fixed: lines in known_findings.txt): " + ", ".join(_fixes()) + ". "
+             "Seeded changes used to test the checks: seeded/<id>/ (patch.diff, demo.py, meta.json); tools/sweep_seeds.sh re-runs them.",
 }
 for p in props:
     if p not in CHECKS:
